@@ -1342,6 +1342,9 @@ def plan_c14(ctx):
         s["group"] = g
         s["backend"] = "surface"
         s["gcheck"] = "same_bag"
+        if not c.get("defs") and "take" not in c:
+            a["engine"] = True
+            s["engine"] = True
         add(ctx, [a, s])
     # lterm!: the written term (ground terms and wildcards)
     for i in range(T(ctx, 120, 1000)):
